@@ -52,7 +52,9 @@ FormalsOf(k, S) == LET idx == SetToSortSeq(S, <) IN
 AttrNames == [other |-> NameQN("ex", A, <<"attr">>), type |-> NamePL("prov", <<"type">>),
               label |-> NamePL("prov", <<"label">>), location |-> NamePL("prov", <<"location">>),
               value |-> NamePL("prov", <<"value">>), role |-> NamePL("prov", <<"role">>),
-              timeish |-> NameQN("ex", A, <<"startTime">>)]
+              timeish |-> NameQN("ex", A, <<"startTime">>),
+              \* PROV formal attributes carried as additional attributes by kinds that do not own them
+              foreignref |-> NamePL("prov", <<"plan">>), foreigntime |-> NamePL("prov", <<"endTime">>)]
 Vals ==
   [ str |-> <<[t |-> "str", v |-> "s1"]>>, empty |-> <<[t |-> "str", v |-> "e"]>>,
     int |-> <<[t |-> "int", v |-> "1"]>>, big |-> <<[t |-> "int", v |-> "7"]>>,
@@ -82,12 +84,17 @@ ValueClasses == DOMAIN Vals
 ExtraSet ==
   CASE ExtraPreset = "min"    -> {<<"other", "none">>, <<"other", "two">>, <<"other", "nasty">>}
     [] ExtraPreset = "values" -> {<<"other", v>> : v \in ValueClasses}
-    [] ExtraPreset = "attrs"  -> {<<a, v>> : a \in DOMAIN AttrNames \ {"timeish"}, v \in {"str", "qn", "int", "subtype"}}
+    [] ExtraPreset = "attrs"  -> {<<a, v>> : a \in DOMAIN AttrNames \ {"timeish", "foreignref", "foreigntime"}, v \in {"str", "qn", "int", "subtype"}}
+                                 \cup {<<"foreignref", "qn">>, <<"foreignref", "qnew">>, <<"foreigntime", "dt">>}
                                  \cup {<<"timeish", "dt">>, <<"value", "dt">>, <<"location", "dt">>, <<"type", "twosub">>,
                                        <<"type", "twosubE">>, <<"type", "typetwo">>, <<"type", "uri">>, <<"location", "lang">>}
-    [] ExtraPreset = "all"    -> {<<a, v>> : a \in DOMAIN AttrNames \ {"timeish"}, v \in ValueClasses} \cup {<<"timeish", "dt">>}
+    [] ExtraPreset = "all"    -> {<<a, v>> : a \in DOMAIN AttrNames \ {"timeish", "foreignref", "foreigntime"}, v \in ValueClasses}
+                                 \cup {<<"timeish", "dt">>, <<"foreignref", "qn">>, <<"foreignref", "qnew">>, <<"foreigntime", "dt">>}
 (* PROV-XML types prov:label as a string: only plain and language-tagged labels are XML-expressible *)
-XmlOK(e) == ("xml" \notin Fmts) \/ e[1] # "label" \/ e[2] \in {"str", "empty", "lang", "none", "nasty", "nastylang"}
+(* ... and the schema gives every record element a closed list of prov: children, so a PROV formal *)
+(* attribute on a kind that does not own it (prov:plan in a wasDerivedFrom) is not XML-expressible *)
+XmlOK(e) == ("xml" \notin Fmts) \/ (e[1] \notin {"label", "foreignref", "foreigntime"})
+            \/ (e[1] = "label" /\ e[2] \in {"str", "empty", "lang", "none", "nasty", "nastylang"})
 (* FinalOp = "Export" (C13): Fmts is the set of exporters; every ordered pair and a triple repetition *)
 ExportSeqs == {<<a, b>> : a \in Fmts, b \in Fmts} \cup {<<a, a, a>> : a \in Fmts}
 (* FinalOp = "Dot" (C15): every combination of the display options; Opts = directions *)
@@ -117,6 +124,17 @@ Final == IF FinalOp = "Load" THEN LoadFinal ELSE IF FinalOp = "Dot" THEN DotFina
          THEN {[op |-> "Export", h |-> "d1", seq |-> q] : q \in ExportSeqs}
          ELSE {[op |-> FinalOp, h |-> "d1", fmt |-> f, opts |-> o] : f \in Fmts, o \in Opts}
 ExtrasOf(e) == [i \in 1..Len(Vals[e[2]]) |-> <<AttrNames[e[1]], Vals[e[2]][i]>>]
+(* values that Python compares equal (1 == True == 1.0, 0 == False) under DIFFERENT attributes of *)
+(* one record: each keeps its own kind (nothing in the claimed space makes them share a set)     *)
+Attr2 == NameQN("ex", A, <<"attr2">>)
+SpecialExtras ==
+  IF ExtraPreset \in {"values", "all"}
+  THEN { << <<AttrNames.other, [t |-> "int", v |-> "1"]>>, <<Attr2, [t |-> "bool", v |-> "1"]>> >>,
+         << <<AttrNames.other, [t |-> "bool", v |-> "1"]>>, <<Attr2, [t |-> "float", v |-> "1"]>> >>,
+         << <<AttrNames.other, [t |-> "float", v |-> "1"]>>, <<Attr2, [t |-> "int", v |-> "1"]>> >>,
+         << <<AttrNames.other, [t |-> "bool", v |-> "0"]>>, <<Attr2, [t |-> "int", v |-> "0"]>> >>,
+         << <<AttrNames.other, [t |-> "int", v |-> "0"]>>, <<Attr2, [t |-> "float", v |-> "0"]>> >> }
+  ELSE {}
 
 IdOptions(k) == IF k \in Elements THEN {<<NamePL("ex", <<"r">>)>>}
                 ELSE {<<>>, <<NamePL("ex", <<"r">>)>>}
@@ -124,6 +142,10 @@ ShapeActsK(h, k) ==
   { [op |-> "NewRec", h |-> h, k |-> k, via |-> "new_record", id |-> i,
      formals |-> FormalsOf(k, S), extras |-> ExtrasOf(e)]
       : i \in IdOptions(k), S \in Masks(k), e \in {x \in ExtraSet : XmlOK(x)} }
+  \cup
+  { [op |-> "NewRec", h |-> h, k |-> k, via |-> "new_record", id |-> i,
+     formals |-> FormalsOf(k, 1..Mandatory[k]), extras |-> e]
+      : i \in IdOptions(k), e \in SpecialExtras }
 ShapeActs(h) == UNION { ShapeActsK(h, k) : k \in KindSet }
 
 (* Mode "rdf": the PROV-O expressible space of C07 as a generator: names under the declared   *)
@@ -198,6 +220,12 @@ SecondActs ==
   \cup (IF "b1" \in DOMAIN ms.con
         THEN { [op |-> "NewRec", h |-> "b1", k |-> "entity", via |-> "new_record",
                 id |-> <<NamePL("ex", <<"r">>)>>, formals |-> <<>>, extras |-> <<>>] }
+        ELSE {})
+  \* the first record once more, same identifier, with only its mandatory formal arguments
+  \* (records that share an identifier and differ in which optional arguments they carry)
+  \cup (LET f == hist[NSetup + 1] IN
+        IF f.op = "NewRec" /\ f.id # <<>> /\ Len(f.formals) > Mandatory[f.k]
+        THEN { [f EXCEPT !.formals = SubSeq(@, 1, Mandatory[f.k]), !.extras = <<>>] }
         ELSE {})
 
 (* Mode "ns": namespace declarations and records whose names exercise them *)
